@@ -105,6 +105,12 @@ def run(cx):
                 fb, mb = cx.closure_body(e['f'][1]), cx.closure_body(e['m'][1])
                 ok = fb is not None and mb is not None and match('(call RangeInclusive::contains (call RangeInclusive::new 0.0 1.0) (field 1 (param 2)))', cx.retval(fb)) is not None and \
                     match('(field 0 (param 2))', cx.retval(mb)) is not None
+        if not ok:
+            # .. or: intersect_rays(..).and_then(|(t_ray, t_edge)| (0.0..=1.0).contains(&t_edge).then_some(t_ray))
+            e = match(f'(call Option::and_then {IR} $f)', cx.retval(b))
+            if e is not None and e['f'][0] == 'closure':
+                fb = cx.closure_body(e['f'][1])
+                ok = fb is not None and match('(call bool::then_some (call RangeInclusive::contains (call RangeInclusive::new 0.0 1.0) (field 1 (param 2))) (field 0 (param 2)))', cx.retval(fb)) is not None
         cx.ob('GUARD', 'ray_intersect_with_edge', ok,
               'Some(t_ray) exactly under 0 <= t_edge <= 1 (closed), where (t_ray, t_edge) = intersect_rays(query ray, Ray(v[i], v[i+1]-v[i])) in this order', where=b.file)
     b = cx.fn('geom2::line2::intersect_rays')
